@@ -63,3 +63,21 @@ package router_identity
 //@   _, _, e2 := ReadRouterIdentity(data)
 //@   assert(e1 == nil && PermittedRI(keys_and_cert.WireSigType(data), keys_and_cert.WireCryptoType(data)) ==> e2 == nil)
 //@ }
+
+// C14: the same for RouterIdentity.
+//@ option C14_RouterIdentityCtorRoundTrips nocontract *
+//@ lemma C14_RouterIdentityCtorRoundTrips(data []byte) {
+//@   k, _, err := keys_and_cert.ReadKeysAndCert(data)
+//@   if err == nil {
+//@     ri, e := NewRouterIdentityFromKeysAndCert(k)
+//@     if e == nil {
+//@       assert(ri.Validate() == nil)
+//@       b, e1 := ri.Bytes()
+//@       assert(e1 == nil)
+//@       ri2, rem, e2 := ReadRouterIdentity(b)
+//@       assert(e2 == nil && len(rem) == 0)
+//@       b2, e3 := ri2.Bytes()
+//@       assert(e3 == nil && seqeq(b2, b))
+//@     }
+//@   }
+//@ }
